@@ -1034,6 +1034,25 @@ SPECS.append(dict(name="Main.quic_loop", group="Main2", file=MAINF, func="handle
                   mut_methods={("τ", "handle_packet"): dict(lean="feed", args=["π", "Bytes", MLV])},
                   calls={"QuicSession": dict(lean="new_quic_session", args=["π", None, None, None, None], ret="τ")}))
 
+# keylog_reader.py: `Key.__init__` (three fields of the line split at spaces), `get_key_from_line` (the regular expression is the
+# external `re_match`: `reg.match(line)` as `Option Unit`), `get_keys_from_string` (CR removed, split at LF, the matching lines)
+GROUPS["Keylog"] = dict(imports=["TLX.PyRt", "TLX.Keylog"], decls=[], options=["set_option linter.unusedVariables false"])
+KLF = "tlexport/keylog_reader.py"
+KOBJ = "TLX.Keylog.Key"
+SPECS.append(dict(name="KL.Key_init", group="Keylog", file=KLF, func="Key.__init__", theorem="KLog.Key_init_eq_model",
+                  params=[("key_line", "Str")], ret="None", raise_state=False,
+                  places=[("self.label", "label", "Str", "rw"), ("self.client_random", "clientRandom", "Str", "rw"),
+                          ("self.value", "value", "Str", "rw")]))
+SPECS.append(dict(name="KL.get_key_from_line", group="Keylog", file=KLF, func="get_key_from_line", theorem="KLog.get_key_from_line_eq_model",
+                  params=[("line", "Str")], ret=f"Option {KOBJ}", externals=[("re_match", "List Nat → Option Unit")],
+                  drop_stmts=["reg = re.compile("], consts={"reg.match(line)": ("(re_match line)", "Option Unit")},
+                  calls={"Key": dict(lean="(fun l => (KL.Key_init l).map fun k => (⟨k.label, k.clientRandom, k.value⟩ : TLX.Keylog.Key))",
+                                     args=["Str"], ret=KOBJ, raises=True)}))
+SPECS.append(dict(name="KL.get_keys_from_string", group="Keylog", file=KLF, func="get_keys_from_string", theorem="KLog.get_keys_from_string_eq_model",
+                  params=[("key_str", "Str")], ret=f"List {KOBJ}", externals=[("re_match", "List Nat → Option Unit")],
+                  locals={"keys": f"List {KOBJ}"}, narrow_not_none=True,
+                  calls={"get_key_from_line": dict(lean="KL.get_key_from_line re_match", args=["Str"], ret=f"Option {KOBJ}", raises=True)}))
+
 THEOREMS = _uniq(theorem_of(s) for s in SPECS)
 
 
@@ -1062,6 +1081,7 @@ CHECK_GROUPS = {
     "C06": ["Builders"],
     "C07": ["Ports", "Builders"],
     "C08": ["Main2"],
+    "C09": ["Keylog"],
     "C10": ["Ports", "Builders"],
     "C11": ["Checksum"],
     "C13": ["TlsSess", "TlsSess2"],
